@@ -33,3 +33,6 @@ WEAKSTUB(__sanitizer_cov_trace_switch, uint64_t v, uint64_t* c)
 WEAKSTUB(__sanitizer_cov_trace_div4, uint32_t v)
 WEAKSTUB(__sanitizer_cov_trace_div8, uint64_t v)
 WEAKSTUB(__sanitizer_cov_trace_gep, uintptr_t i)
+/* gcc-only hooks for float/double comparisons (libFuzzer has no counterpart) */
+void __sanitizer_cov_trace_cmpf(float a, float b) { (void)a; (void)b; }
+void __sanitizer_cov_trace_cmpd(double a, double b) { (void)a; (void)b; }
